@@ -219,6 +219,34 @@ pub fn add_noise(rg: &mut Rg, e: &mut EnumSpec) {
     }
 }
 
+/// harmless non-strum attributes in front of a variant's strum attributes
+pub fn variant_noise(rg: &mut Rg, e: &mut EnumSpec, docs_ok: bool) {
+    let pool: Vec<&str> = if docs_ok {
+        vec!["#[allow(dead_code)]", "#[doc(hidden)]", "/// a variant doc line", "#[allow(non_camel_case_types)]"]
+    } else {
+        vec!["#[allow(dead_code)]", "#[doc(hidden)]", "#[allow(non_camel_case_types)]"]
+    };
+    for v in e.variants.iter_mut() {
+        if rg.chance(1, 4) {
+            v.noise.push(rg.pick(&pool).to_string());
+        }
+    }
+}
+
+/// strum attributes that the derives of this family do not consume; they must not change anything
+pub fn irrelevant_attrs(rg: &mut Rg, tag: usize) -> Vec<VAttr> {
+    let mut out = Vec::new();
+    if rg.chance(1, 5) {
+        out.push(match rg.below(4) {
+            0 => VAttr::Message(format!("irrelevant message {}", tag)),
+            1 => VAttr::Detailed(format!("irrelevant detail {}", tag)),
+            2 => VAttr::Props(vec![("irrelevant".to_string(), PropVal::Bool(true))]),
+            _ => VAttr::Ci(None),
+        });
+    }
+    out
+}
+
 /// attributes of a disabled variant: `disabled` alone, or sharing its list / its variant with
 /// harmless companions in any order
 pub fn disabled_attrs(rg: &mut Rg, tag: usize) -> Vec<Vec<VAttr>> {
@@ -585,6 +613,8 @@ pub fn gen_string(rg: &mut Rg, cfg: &GenCfg) -> EnumSpec {
     use_generics(&mut e);
     repair_spellings(&mut e);
     add_noise(rg, &mut e);
+    let docs_ok = !e.derives("EnumMessage");
+    variant_noise(rg, &mut e, docs_ok);
     e
 }
 
@@ -687,6 +717,9 @@ pub fn gen_iter(rg: &mut Rg, cfg: &IterCfg) -> EnumSpec {
                 });
             }
         }
+        if (mask >> vi) & 1 == 0 {
+            attrs.extend(irrelevant_attrs(rg, vi));
+        }
         if cfg.naming {
             match rg.weighted(&[(4, 0u8), (2, 1), (2, 2)]) {
                 1 => {
@@ -735,7 +768,15 @@ pub fn gen_iter(rg: &mut Rg, cfg: &IterCfg) -> EnumSpec {
             }
         }
     }
+    // `default` is an EnumString notion: a catch-all variant is an ordinary variant for every other derive
+    if !cfg.fieldless && rg.chance(1, 5) {
+        if let Some(v) = e.variants.iter_mut().find(|v| v.kind == Kind::Tuple && v.fields.len() == 1 && !v.disabled() && !matches!(v.fields[0].ty, FieldTy::Gen | FieldTy::Phantom | FieldTy::RefStr)) {
+            v.fields[0].ty = FieldTy::Str;
+            v.groups.push(vec![VAttr::Default]);
+        }
+    }
     add_noise(rg, &mut e);
+    variant_noise(rg, &mut e, true);
     e
 }
 
@@ -770,6 +811,9 @@ pub fn gen_repr(rg: &mut Rg, repr: Option<&str>, derives: &[String]) -> EnumSpec
         if data {
             e.type_param = rg.chance(1, 4);
             e.where_clause = e.type_param && rg.chance(1, 2);
+        } else {
+            // an unused const parameter is legal on a field-less enum
+            e.const_param = rg.chance(1, 6);
         }
         let use_base = explicit_ok && rg.chance(1, 5);
         if use_base {
@@ -813,11 +857,19 @@ pub fn gen_repr(rg: &mut Rg, repr: Option<&str>, derives: &[String]) -> EnumSpec
             prev = Some(val);
             if rg.chance(1, 4) {
                 v.groups = disabled_attrs(rg, vi);
+            } else {
+                let ir = irrelevant_attrs(rg, vi);
+                if !ir.is_empty() {
+                    v.groups = layout(rg, ir, false);
+                }
             }
             e.variants.push(v);
         }
-        use_generics(&mut e);
+        if data {
+            use_generics(&mut e);
+        }
         add_noise(rg, &mut e);
+        variant_noise(rg, &mut e, true);
         // validity: unique, in range (rustc rejects duplicates / overflow)
         let ds = model::discs(&e);
         let mut s = ds.clone();
@@ -893,6 +945,7 @@ pub fn gen_shape(rg: &mut Rg) -> EnumSpec {
         e.variants.push(v);
     }
     add_noise(rg, &mut e);
+    variant_noise(rg, &mut e, true);
     // generic carriers (not disabled)
     let uses = |e: &EnumSpec, t: FieldTy| e.variants.iter().any(|v| v.fields.iter().any(|f| f.ty == t));
     let mut need = vec![];
@@ -1035,7 +1088,16 @@ pub fn gen_table(rg: &mut Rg, n_enabled: usize) -> EnumSpec {
         }
         e.variants.push(v);
     }
+    // explicit discriminants in no particular order must not reorder the table
+    if rg.chance(1, 3) {
+        let mut vals: Vec<i128> = (0..e.variants.len() as i128).map(|i| i * 5 + 2).collect();
+        rg.shuffle(&mut vals);
+        for (v, x) in e.variants.iter_mut().zip(vals) {
+            v.disc = Some(Disc { text: format!("{}", x), value: x });
+        }
+    }
     add_noise(rg, &mut e);
+    variant_noise(rg, &mut e, true);
     e
 }
 
@@ -1162,13 +1224,40 @@ pub fn gen_disc(rg: &mut Rg) -> EnumSpec {
             e.variants.push(v);
         }
         e.disc_opts = Some(opts);
+        // the source enum's own visibility varies as well (the glue sits in the parent module)
+        e.vis = rg.pick(&["pub", "pub", "pub(crate)", "pub(super)"]).to_string();
         add_noise(rg, &mut e);
+        variant_noise(rg, &mut e, true);
         let ds = model::discs(&e);
         let mut s = ds.clone();
         s.sort();
         s.dedup();
         if s.len() != ds.len() || ds.iter().any(|d| *d < lo || *d > hi) {
             continue;
+        }
+        // names of the discriminant enum (pass-through style, folded when case-insensitivity is passed through)
+        // must stay distinct, otherwise its own from_str is ambiguous
+        {
+            let o = e.disc_opts.as_ref().unwrap();
+            let all = o.passthrough.join(", ");
+            let style = all.find("serialize_all = \"").map(|i| {
+                let r = &all[i + 17..];
+                r[..r.find('"').unwrap()].to_string()
+            });
+            let mut names: Vec<String> = e
+                .variants
+                .iter()
+                .map(|v| {
+                    let pt = v.disc_passthrough.iter().find_map(|p| p.strip_prefix("strum(serialize = \"").and_then(|r| r.strip_suffix("\")")).map(|s| s.to_string()));
+                    pt.unwrap_or_else(|| model::case(&v.ident, style.as_deref())).to_ascii_lowercase()
+                })
+                .collect();
+            names.sort();
+            let n0 = names.len();
+            names.dedup();
+            if names.len() != n0 {
+                continue;
+            }
         }
         // FromRepr on D without an integer repr takes usize: negative discriminants would not compile
         if e.repr_int.is_none() && ds.iter().any(|d| *d < 0) {
